@@ -53,6 +53,99 @@ def calls(tree, owner, attr):
     return out
 
 
+def reap_guard(A):
+    """How Arbiter.reap_workers turns the exit codes 3 / 4 of a worker into HaltServer.
+    False: `if exitcode == self.WORKER_BOOT_ERROR: raise HaltServer(...)` (and the same for APP_LOAD_ERROR), unconditionally.
+    True:  both tests read `exitcode == self.<CODE> and not self.<flag>`, where <flag> is an attribute that __init__ sets to
+           False and that the FIRST statement of stop() sets to True, written nowhere else and read nowhere else.
+    Anything else is not understood (fail closed)."""
+    t = fn_ast(A.reap_workers)
+    parent = {}
+    for n in ast.walk(t):
+        for c in ast.iter_child_nodes(n):
+            parent[c] = n
+    if not any(isinstance(n, ast.Assign) and ast.unparse(n) == "exitcode = status >> 8" for n in ast.walk(t)):
+        die("reap_workers: expected `exitcode = status >> 8`")
+    raises = [n for n in ast.walk(t) if isinstance(n, ast.Raise) and n.exc is not None]     # not the bare re-raise of OSError
+    if len(raises) != 2:
+        die("reap_workers: expected exactly two raise statements, found %d" % len(raises))
+    seen = {}
+    for r in raises:
+        e = r.exc
+        if not (isinstance(e, ast.Call) and isinstance(e.func, ast.Name) and e.func.id == "HaltServer" and len(e.args) == 2
+                and not e.keywords and r.cause is None):
+            die("reap_workers: cannot interpret `%s`" % ast.unparse(r))
+        code = ast.unparse(e.args[1])
+        if code not in ("self.WORKER_BOOT_ERROR", "self.APP_LOAD_ERROR") or code in seen:
+            die("reap_workers: unexpected exit status in `%s`" % ast.unparse(r))
+        iff = parent.get(r)
+        if not isinstance(iff, ast.If) or r not in iff.body or iff.orelse:
+            die("reap_workers: `%s` is not the body of a plain `if`" % ast.unparse(r))
+        if any(isinstance(x, (ast.Break, ast.Continue, ast.Return)) for x in iff.body):
+            die("reap_workers: control flow next to `%s`" % ast.unparse(r))
+        # where the `if` sits: try: while True: ... if self.reexec_pid == wpid: ... else: <here>
+        p1 = parent.get(iff)
+        if not (isinstance(p1, ast.If) and ast.unparse(p1.test) == "self.reexec_pid == wpid" and iff in p1.orelse
+                and isinstance(parent.get(p1), ast.While) and isinstance(parent.get(parent.get(p1)), ast.Try)
+                and parent.get(parent.get(parent.get(p1))) is t):
+            die("reap_workers: the test guarding `%s` is not in the worker branch of the waitpid loop" % ast.unparse(r))
+        test = iff.test
+        flag = None
+        if isinstance(test, ast.BoolOp) and isinstance(test.op, ast.And) and len(test.values) == 2:
+            g = test.values[1]
+            if not (isinstance(g, ast.UnaryOp) and isinstance(g.op, ast.Not) and isinstance(g.operand, ast.Attribute)
+                    and isinstance(g.operand.value, ast.Name) and g.operand.value.id == "self"):
+                die("reap_workers: cannot interpret the test `%s`" % ast.unparse(test))
+            flag = g.operand.attr
+            test = test.values[0]
+        if ast.unparse(test) != "exitcode == %s" % code:
+            die("reap_workers: cannot interpret the test `%s` before `%s`" % (ast.unparse(iff.test), ast.unparse(r)))
+        seen[code] = flag
+    flags = set(seen.values())
+    if len(flags) != 1:
+        die("reap_workers: the two boot-failure tests are guarded differently: %r" % (seen,))
+    flag = flags.pop()
+    if flag is None:
+        return False
+    try:
+        cls = ast.parse(textwrap.dedent(inspect.getsource(A))).body[0]
+    except (OSError, TypeError) as e:
+        die("no source for Arbiter: %s" % e)
+    stores, loads = [], 0
+    for fn in cls.body:
+        if not isinstance(fn, (ast.FunctionDef, ast.AsyncFunctionDef)):
+            continue
+        for n in ast.walk(fn):
+            if isinstance(n, ast.Attribute) and n.attr == flag and isinstance(n.value, ast.Name) and n.value.id == "self":
+                if isinstance(n.ctx, ast.Load):
+                    loads += 1
+                else:
+                    stores.append((fn, n))
+    if loads != 2:
+        die("self.%s is read %d times in Arbiter (expected: the two tests of reap_workers only)" % (flag, loads))
+    if sorted(fn.name for fn, _ in stores) != ["__init__", "stop"]:
+        die("self.%s is written in %r (expected: __init__ and stop only)" % (flag, sorted(fn.name for fn, _ in stores)))
+    for fn, n in stores:
+        st = parent_stmt(fn, n)
+        want = "self.%s = %s" % (flag, "False" if fn.name == "__init__" else "True")
+        if st is None or ast.unparse(st) != want or st not in fn.body:
+            die("%s: expected the top-level statement `%s`" % (fn.name, want))
+        if fn.name == "stop":
+            body = [s for s in fn.body if not (isinstance(s, ast.Expr) and isinstance(s.value, ast.Constant) and isinstance(s.value.value, str))]
+            if body[0] is not st:
+                die("stop: `%s` is not the first statement" % want)
+    return True
+
+
+def parent_stmt(fn, node):
+    for st in ast.walk(fn):
+        if isinstance(st, ast.stmt) and st is not fn:
+            for c in ast.iter_child_nodes(st):
+                if c is node:
+                    return st
+    return None
+
+
 def main():
     import gunicorn.arbiter as ga
     A = ga.Arbiter
@@ -69,6 +162,10 @@ def main():
         if not isinstance(v, int) or isinstance(v, bool):
             die("Arbiter.%s is not an int" % name)
         w("Definition %s : Z := %d." % (name.lower(), v))
+
+    # --- reap_workers: when does a boot-failure exit code raise HaltServer? ---------------------------------
+    w("Definition reap_guards_halting : bool := %s.   (* reap_workers raises HaltServer only while stop() has not been entered *)"
+      % ("true" if reap_guard(A) else "false"))
 
     # --- signal queue bound: the literal compared with len(self.SIG_QUEUE) in Arbiter.signal ----------
     t = fn_ast(A.signal)
